@@ -47,6 +47,44 @@ def kernel_cases(seed, thorough=False):
                 if not numpy.allclose(cum, numpy.cumsum(dist * dw)):
                     probs.append("cumulative != running integral of the distribution")
                 yield {'name': name, 'ok': not probs, 'detail': '; '.join(probs)}
+    # user-supplied kernel files: each fit uses the file it was given (two files with the same name in different folders,
+    # then the shipped kernel again), reports that file's pore widths and reproduces an exact combination of its isotherms
+    import pandas
+    import shutil
+    import tempfile
+    tmp = tempfile.mkdtemp(prefix='pgv-c18-')
+    try:
+        raw = pandas.read_csv(path, index_col=0)
+        parts = {'a': raw.iloc[:, :20], 'b': raw.iloc[:, 40:60]}
+        files = {}
+        for k, df in parts.items():
+            os_dir = tmp + '/' + k
+            import os as _os
+            _os.makedirs(os_dir)
+            files[k] = os_dir + '/kernel.csv'
+            df.to_csv(files[k])
+        for k in ('a', 'b', 'a'):
+            cols = numpy.asarray(parts[k].columns, dtype=float)
+            kern = PK._load_kernel(files[k])
+            wk = numpy.asarray(list(kern.keys()), dtype=float)
+            ok_w = len(wk) == len(cols) and numpy.allclose(wk, cols)
+            w = numpy.zeros(len(cols))
+            w[[2, 9, 15]] = (0.5, 0.3, 0.8)
+            loading = sum(w[i] * numpy.asarray(parts[k].iloc[:, i].values, dtype=float) for i in range(len(cols)))
+            pk = numpy.asarray(parts[k].index, dtype=float)
+            sel = (pk > 1e-6) & (pk < 0.9)
+            try:
+                pw, dist, cum, fitted = PK.psd_dft_kernel_fit(pk[sel], loading[sel], files[k], 2)
+                ok_f = numpy.allclose(fitted, loading[sel], atol=0.02 * float(numpy.max(loading))) and bool(numpy.isclose(pw[0], cols[0]) and numpy.isclose(pw[-1], cols[-1]))
+                detail = '' if (ok_w and ok_f) else f"kernel widths {wk[:3]} vs file {cols[:3]}; reported widths {float(pw[0]):.3g}..{float(pw[-1]):.3g} vs {cols[0]:.3g}..{cols[-1]:.3g}; max deviation {float(numpy.max(numpy.abs(fitted - loading[sel]))):.3g}"
+            except CalculationError:
+                ok_f, detail = True, 'optimiser reported failure (no claim)'
+            yield {'name': f"user_kernel_file|same_name_other_folder|{k}", 'ok': bool(ok_w and ok_f), 'detail': detail}
+        again = PK._load_kernel(path)
+        ok = numpy.allclose(numpy.asarray(list(again.keys()), dtype=float), widths)
+        yield {'name': 'user_kernel_file|shipped_kernel_afterwards', 'ok': bool(ok), 'detail': ''}
+    finally:
+        shutil.rmtree(tmp, ignore_errors=True)
     # pressures outside the kernel range are refused with a calculation error
     try:
         PK.psd_dft_kernel_fit(numpy.array([0.5, 1.5, 2.0]), numpy.array([1.0, 2.0, 3.0]), path, 2)
